@@ -259,6 +259,14 @@ impl TextVisitor {
                         t.evals += 1;
                         verdict(name, &o, t);
                     }
+                    for (name, r) in crate::drive::parse_in_verdicts(text, STRICT) {
+                        t.evals += 1;
+                        match r {
+                            Ok(got) if got == want => {}
+                            Ok(got) => t.violation("", format!("{name}: {} a text the reference {}", if got { "accepts" } else { "rejects" }, if want { "accepts" } else { "rejects" }), text_case(text, strict, name)),
+                            Err(p) => t.violation("", format!("{name}: panic: {p}"), text_case(text, strict, name)),
+                        }
+                    }
                 } else {
                     for (name, o) in [("parse_str", str_entry(text, STRICT)), ("parse_slice", slice_entry_default(text.as_bytes()))] {
                         t.evals += 1;
@@ -330,6 +338,32 @@ impl TextVisitor {
             }
             Mode::C02 | Mode::C05 => {
                 if exp != Expect::Accept {
+                    // C05 speaks of every *successful* parse: a document that only a lenient
+                    // record accepts has a code map too (same spans: the options change how
+                    // escapes decode, not where fragments lie)
+                    if self.mode == Mode::C05 && !n.mach.faults.is_empty() {
+                        if let Ok(doc) = decode(text) {
+                            for rec in RECORDS {
+                                if expect_from(n.mach, text.len(), n.dead, rec) != Expect::Accept {
+                                    continue;
+                                }
+                                t.nontrivial(&(text, rec));
+                                t.outcome("leaf:accepted under a lenient record only");
+                                for (name, o) in [("parse_str_with", str_entry(text, options(rec.0, rec.1))), ("parse_slice_with", slice_entry(text.as_bytes(), options(rec.0, rec.1)))] {
+                                    t.evals += 1;
+                                    match &o {
+                                        Out::Ok(v, map) => {
+                                            if let Err(e) = check_map(v, map, &doc, text.len()) {
+                                                t.violation("", format!("{name} under record {rec:?}: {e}"), text_case(text, rec, name));
+                                            }
+                                        }
+                                        other => t.violation("", format!("{name} under record {rec:?}: rejected ({}) although the record tolerates every fault", other.brief()), text_case(text, rec, name)),
+                                    }
+                                }
+                            }
+                            return;
+                        }
+                    }
                     t.outcome("rejected (not in scope)");
                     return;
                 }
